@@ -294,3 +294,56 @@ def c03(run):
     run.assumptions = [SYMBOLIC, 'ideal AEAD / MDC: a chunk opens iff every octet is genuine for that index; the MDC matches iff the whole decrypted stream is genuine',
                        'behaviour after the first error is not constrained']
     run.notes['trusted_base'] = TRUSTED
+
+
+# ---------------------------------------------------------------------------
+# C09  streaming transparency and fault propagation
+
+def stages_cfg(maxlen, cap, rule, filluntil, swallow=False, invs='Transparent FaultSurfaces NoInvention'):
+    b = lambda x: 'TRUE' if x else 'FALSE'
+    return f"""CONSTANTS
+  MaxLen = {maxlen}
+  Cap = {cap}
+  EofRule = "{rule}"
+  UseFillUntil = {b(filluntil)}
+  SwallowInLoop = {b(swallow)}
+SPECIFICATION Spec
+INVARIANTS {invs}
+CHECK_DEADLOCK FALSE
+"""
+
+
+@prop('C09', 'model_checking')
+def c09(run):
+    n = run.q(7, 9)
+    for cap in (2, 3, 4):
+        run.mc('MCStages', stages_cfg(n, cap, 'zero', True), name=f'mc_zero_fill_cap{cap}')
+        run.mc('MCStages', stages_cfg(n, cap, 'zero', False), name=f'mc_zero_single_cap{cap}')
+        run.mc('MCStages', stages_cfg(n, cap, 'short', True), name=f'mc_short_fill_cap{cap}')
+    # the design claims: "short read = EOF" without fill_buffer is wrong; a swallowed error is wrong
+    run.mc('MCStages', stages_cfg(5, 3, 'short', False), name='sens_short_without_filluntil', expect_violation='Transparent')
+    run.mc('MCStages', stages_cfg(5, 3, 'short', True, swallow=True), name='sens_error_swallowed_in_fill_loop', expect_violation='FaultSurfaces')
+    g = run.mc('MCStages', stages_cfg(0, 2, 'zero', True, invs='GenSched'), name='gen', workers=1, count=False)
+    cases = g.cases
+    if run.replay and run.replay.get('source_case'):
+        cases = [run.replay['source_case']]
+    for i, c in enumerate(cases):
+        c['ci'] = i
+    body, summary, oks = run.harness('c09', cases, timeout=3000)
+    run.distinct_nontrivial = summary['extra']['nontrivial']
+    run.traces_validated = summary['evaluations']
+    run.exhaustive = False
+    run.rule = ('Stages.tla (generic pull stage: bounded buffer, upstream with arbitrary short reads and one fault, the two '
+                'EOF rules of the code, fill_buffer loop) is model-checked over every composition of inputs <= 7 (thorough 9) '
+                'into read sizes x every fault position x caps 2..4; TLC emits the cyclic schedule patterns over the symbolic sizes '
+                '{1,2,B-1,B,B+1,rest} (42 patterns). The harness instantiates B with 512 and 8192 and runs 7 pipeline '
+                'configurations (plain, zip+sign, SEIPDv1+password, SEIPDv2+key+text signature, armored, bzip2+GCM+2 signers+armor, '
+                'utf8+zlib+v1) x 10 (thorough 20) payload sizes: builder under source schedule and short-writing sink (bytes must '
+                'equal the one-shot run), reader under source schedule x 6 consumer patterns (payload, metadata, verification '
+                'results equal), and single faults at sampled call indices of source (build/read) and sink. '
+                'non-trivial = (configuration, size, pattern, B) combinations that differ from one-shot delivery')
+    run.add_samples(cases[7:9])
+    run.add_samples(oks[:3])
+    run.assumptions = ['internal buffer sizes (512, 1024, 8192) are used only to choose interesting schedule sizes; no verdict depends on them',
+                       'randomness is fixed by seeding so that builder output is comparable byte for byte']
+    run.notes['trusted_base'] = TRUSTED
